@@ -175,6 +175,8 @@ def b_getattr(it, v, name, *default):
 
 
 def b_hasattr(it, v, name):
+    if name == '__call__':
+        return b_callable(it, v)
     sentinel = object()
     try:
         return it.getattr(v, name, sentinel) is not sentinel
